@@ -88,7 +88,7 @@ def build_replay(force=True):
     return time.time() - t0
 
 
-def run_replay(scenarios, timeout=600):
+def run_replay(scenarios, timeout=240, _depth=0, _hangs=0):
     """Play scenarios natively. Each scenario gets a private XDG_DATA_HOME under a scratch dir
     that is removed afterwards. Returns the list of result objects (same order)."""
     if not scenarios:
@@ -102,20 +102,52 @@ def run_replay(scenarios, timeout=600):
                 sc.setdefault("id", i)
                 sc["xdg"] = os.path.join(scratch, "x%d" % i)
                 f.write(json.dumps(sc, ensure_ascii=False) + "\n")
-        p = subprocess.run([REPLAY_BIN, path], stdout=subprocess.PIPE, stderr=subprocess.PIPE,
-                           timeout=timeout, env=env_with())
-        lines = [l for l in p.stdout.decode("utf-8", "replace").split("\n") if l.strip()]      # not splitlines(): U+2028 etc. occur in texts
-        res = [json.loads(l) for l in lines]
-        if len(res) != len(scenarios):
-            raise Inconclusive("replay driver returned %d results for %d scenarios (rc=%s): %s" % (
-                len(res), len(scenarios), p.returncode, p.stderr.decode("utf-8", "replace")[-2000:]))
-        return res
+        how = None
+        try:
+            p = subprocess.run([REPLAY_BIN, path], stdout=subprocess.PIPE, stderr=subprocess.PIPE,
+                               timeout=timeout, env=env_with())
+            out, errtxt, rc = p.stdout, p.stderr.decode("utf-8", "replace"), p.returncode
+        except subprocess.TimeoutExpired as ex:
+            out, errtxt, rc = ex.stdout or b"", (ex.stderr or b"").decode("utf-8", "replace"), None
+            how = "did not return within %d s" % timeout
+        lines = [l for l in out.decode("utf-8", "replace").split("\n") if l.strip()]      # not splitlines(): U+2028 etc. occur in texts
+        res = []
+        for l in lines:
+            try:
+                res.append(json.loads(l))
+            except ValueError:
+                break               # a line cut short by the crash
+        if len(res) == len(scenarios):
+            return res
+        if rc == 0 and how is None:
+            raise Inconclusive("replay driver returned %d results for %d scenarios (rc=%s): %s" % (len(res), len(scenarios), rc, errtxt[-2000:]))
+        # the driver died (abort, stack overflow, signal) or hung inside scenario len(res): that is an observation about that scenario
+        # (a Rust panic is caught and reported per step; only an abort or non-termination ends the process). The rest is played separately.
+        k = len(res)
+        if "WATCHDOG" in errtxt:
+            how = "a step did not return within 20 s (the driver's watchdog ended the process)"
+        how = how or ("process ended by signal %d" % -rc if rc is not None and rc < 0 else "process exited with status %s" % rc)
+        tail = [x for x in errtxt.strip().split("\n") if x.strip()][-3:]
+        # consumers index the step results of a scenario by position: the observation stands for every step from the fatal one on
+        # (which step it was is not known; the steps before it are lost with the process)
+        obs = {"op": "process", "abort": "%s: %s" % (how, " | ".join(tail)[:400]), "panic": "abort (not a catchable panic): %s: %s" % (how, " | ".join(tail)[:300]),
+               "suggestion": {}, "state": {}}
+        res.append({"id": scenarios[k].get("id", k), "crashed": True, "results": [dict(obs) for _ in range(max(8, len(scenarios[k].get("steps", [])) + 2))]})
+        if rc is None or "WATCHDOG" in errtxt:
+            _hangs += 1
+        if _depth >= 24 or _hangs >= 2:
+            # enough deaths seen: the rest is not played (marked as such)
+            skip = {"op": "skipped", "skipped": True, "suggestion": {}, "state": {}}
+            for j in range(k + 1, len(scenarios)):
+                res.append({"id": scenarios[j].get("id", j), "skipped": True, "results": [dict(skip) for _ in range(max(8, len(scenarios[j].get("steps", [])) + 2))]})
+            return res
+        return res + run_replay(scenarios[k + 1:], timeout, _depth + 1, _hangs)
     finally:
         subprocess.run(["chmod", "-R", "u+rwx", scratch], stderr=subprocess.DEVNULL)
         shutil.rmtree(scratch, ignore_errors=True)
 
 
-def run_replay_parallel(scenarios, jobs=None, timeout=900):
+def run_replay_parallel(scenarios, jobs=None, timeout=240):
     """Same as run_replay but split over several driver processes."""
     from concurrent.futures import ThreadPoolExecutor
     jobs = jobs or NCPU
